@@ -280,7 +280,7 @@ func ruleEDispatch(p *Program, r *Reporter) {
 			r.Unknown(ci.clause.Pos(), key, "the case does not end in a helper call")
 			continue
 		}
-		if ci.helper != want {
+		if ci.helper != want && !nameImplements(ci.helper, base) {
 			r.Bad(ci.clause.Pos(), key, "dispatches to "+ci.helper+" but the helper implementing "+base+" is "+want)
 			continue
 		}
@@ -1321,4 +1321,52 @@ func rulePCaseSiblings(p *Program, r *Reporter) {
 			r.Bad(sites[0].pos, k, "sibling construction sites of one construct set different fields: "+strings.Join(ds, "; "))
 		}
 	}
+}
+
+// nameImplements: the helper's name contains every word of the node's base name (CeilNode -> ceil, ceiling, decimalCeil;
+// MaxBy -> arrayMaxBy), so a renamed helper is still recognised while a helper of another operation is not.
+func nameImplements(helper, base string) bool {
+	if exc, ok := helperExceptions[base]; ok && strings.EqualFold(exc, helper) {
+		return true
+	}
+	h := strings.ToLower(helper)
+	var words []string
+	cur := ""
+	for _, r := range base {
+		if unicode.IsUpper(r) && cur != "" {
+			words = append(words, strings.ToLower(cur))
+			cur = ""
+		}
+		cur += string(r)
+	}
+	if cur != "" {
+		words = append(words, strings.ToLower(cur))
+	}
+	if base == "NotEqual" || base == "SmallIndex" {
+		words = words[1:]
+	}
+	for _, w := range words {
+		if w == "and" {
+			continue
+		}
+		i := strings.Index(h, w)
+		if i < 0 {
+			return false
+		}
+	}
+	// a helper of the opposite operation must not match by accident (min/max, left/right, first/last, floor/ceil)
+	for _, pair := range [][2]string{{"min", "max"}, {"left", "right"}, {"first", "last"}, {"floor", "ceil"}, {"lower", "upper"}, {"starts", "ends"}, {"less", "greater"}} {
+		for k := 0; k < 2; k++ {
+			has := false
+			for _, w := range words {
+				if w == pair[k] {
+					has = true
+				}
+			}
+			if has && strings.Contains(h, pair[1-k]) && !strings.Contains(strings.ToLower(base), pair[1-k]) {
+				return false
+			}
+		}
+	}
+	return true
 }
